@@ -439,10 +439,18 @@ def l4(facts, tier):
                         notified = False
                         node_ = m
                         p = pm.get(id(node_))
+                        innermost = True
                         while p is not None and not notified:
                             if p.get("k") == "Block":
                                 items = list(p["stmts"]) + ([p["e"]] if p.get("e") is not None else [])
-                                for it in items:
+                                # the statement of this block that contains the mutation: in the innermost block every statement
+                                # counts (the lock is held throughout), further out only what follows it (not sibling branches)
+                                at = next((i_ for i_, it in enumerate(items) if it is node_ or any(y is node_ for y in walk(it))), None)
+                                cand = items if innermost else (items[at + 1:] if at is not None else [])
+                                if innermost and at is not None:
+                                    cand = [it for i_, it in enumerate(items) if i_ != at] + [items[at]]
+                                innermost = False
+                                for it in cand:
                                     for y in walk(it):
                                         if y.get("k") == "Call" and "Condvar::notify" in (callee(y) or "") and cv_of(y) == cv:
                                             notified = True
